@@ -40,9 +40,13 @@ def cases(tier):
                 continue
             if all(x == 1 for x in dims):
                 continue
-            for c in (False, True, 'rhs', 'guess'):        # 'rhs' / 'guess': only that object is complex (mixed dtypes)
+            # 'rhs' / 'guess': only that object is complex (mixed dtypes); 'tail': right-hand side and guess have real first
+            # cores and complex later ones; 'tailop': only the operator is complex, and only from its second core on
+            for c in (False, True, 'rhs', 'guess', 'tail', 'tailop'):
                 for opk in ('dense', 'ttbuilt', 'kronint'):
-                    if c in ('rhs', 'guess') and (opk == 'ttbuilt' or d == 4):
+                    if c in ('rhs', 'guess', 'tail', 'tailop') and (opk == 'ttbuilt' or d == 4):
+                        continue
+                    if c in ('tail', 'tailop') and d == 1:
                         continue
                     if opk == 'kronint' and (c is not False or d == 4):     # integer-dtype cores everywhere (operator, guess, rhs)
                         continue
@@ -59,6 +63,10 @@ def cases(tier):
                                         continue
                                     yield {'dims': list(dims), 'c': c, 'op': opk, 'rb': rb, 'rg': rg, 'solver': solver,
                                            'meth': meth, 'thr': thr, 'mr': mr}
+                                    if meth == 'mals' and mr == 2 and c in (False, True) and opk == 'dense':
+                                        # max_rank given as a NumPy integer (what np.max(t.ranks) or an integer array yields)
+                                        yield {'dims': list(dims), 'c': c, 'op': opk, 'rb': rb, 'rg': rg, 'solver': solver,
+                                               'meth': meth, 'thr': thr, 'mr': mr, 'mrt': 'np64' if solver == 'solve' else 'np32'}
 
 
 class Monitor:
@@ -148,6 +156,16 @@ def make_problem(case, rng):
         A = mat(op).astype(float)
         b = TT([np.rint((1000 if d <= 3 else 20) * rng.standard_normal((1 if i == 0 else case['rb'], dims[i], 1, 1 if i == d - 1 else case['rb']))).astype(np.int64) for i in range(d)])
         return op, A, b
+    if cc == 'tailop':
+        # Kronecker product of a real SPD first factor and complex HPD later factors: the first operator core is real
+        cores = []
+        for i_, m_ in enumerate(dims):
+            Bi = rng.standard_normal((m_, m_)) + (1j * rng.standard_normal((m_, m_)) if i_ > 0 else 0)
+            cores.append((Bi.conj().T @ Bi / m_ + np.eye(m_)).reshape(1, m_, m_, 1))
+        op = TT(cores)
+        A = mat(op)
+        b = tt_from(rand_cores(rng, dims, [1] * d, [1] + [case['rb']] * (d - 1) + [1], False))
+        return op, A, b
     if case['op'] == 'dense':
         B = rng.standard_normal((n, n)) + (1j * rng.standard_normal((n, n)) if c else 0)
         A = B.conj().T @ B / n + np.eye(n)
@@ -157,7 +175,7 @@ def make_problem(case, rng):
         Bt = (1.0 / Bt.norm()) * Bt
         op = Bt.transpose(conjugate=True) @ Bt + tt.eye(dims)
     A = mat(op)
-    b = tt_from(rand_cores(rng, dims, [1] * d, [1] + [case['rb']] * (d - 1) + [1], cc in (True, 'rhs')))
+    b = tt_from(rand_cores(rng, dims, [1] * d, [1] + [case['rb']] * (d - 1) + [1], 'tail' if cc == 'tail' else cc in (True, 'rhs')))
     return op, A, b
 
 
@@ -171,7 +189,7 @@ def run_case(case, seed):
     op, A, b = make_problem(case, rng)
     bv = vec(b)
     xs = np.linalg.solve(A, bv)
-    guess = tt_from(rand_cores(rng, dims, [1] * d, rg, c in (True, 'guess')))
+    guess = tt_from(rand_cores(rng, dims, [1] * d, rg, 'tail' if c == 'tail' else c in (True, 'guess')))
     if case['op'] == 'kronint':
         from scikit_tt.tensor_train import TT as _TT
         g_ = [np.rint((1000 if d <= 3 else 20) * rng.standard_normal((rg[i], dims[i], 1, rg[i + 1]))) for i in range(d)]    # integer dtype, generic values (no exact coincidences); magnitudes chosen so that the int64 environments cannot overflow
@@ -186,6 +204,8 @@ def run_case(case, seed):
     r.nontrivial = d >= 2 and (max(rg) > 1 or bool(c))
     sop, sb, sg = snap(op), snap(b), snap(guess)
     thr = case['thr']; mr = np.inf if case['mr'] in (None, 'inf') else case['mr']
+    if case.get('mrt'):
+        mr = {'np64': np.int64, 'np32': np.int32}[case['mrt']](mr)
     binding = meth == 'mals' and mr != np.inf
     key = meth + (':binding' if binding else '')
     scale = float(np.real(xs.conj() @ A @ xs)) + 1.0
